@@ -132,8 +132,9 @@ PROPS = {
         go_cmds=("seq", "conc"),
         conc=[dict(comp="lock", driver="locktrace", args=["-focus", "C04"],
                    decisive=lambda d: d["op"].startswith("mon C04"),
-                   ignore=lambda d: d["op"].startswith("mon ") and not d["op"].startswith("mon C04"))],
-        rule=LOCK_RULE,
+                   ignore=lambda d: d["op"].startswith("mon ") and not d["op"].startswith("mon C04")),
+              dict(comp="lockloss", driver="monitors", decisive=lambda d: d["op"].startswith("mon C04"))],
+        rule=LOCK_RULE + " Plus three Go-side scenarios on the real in-memory store (component lockloss): the lock record is deleted while the lock is held (lease lost — outside the model's lease assumption) and the holder unlocks: Unlock must return, a caller queued on the same Locker must be handed the lock, the Locker must be able to acquire again, no record may be left",
         assumptions=LOCK_ASSUME,
         trusted=LOCK_TRUSTED,
         explanation=LOCK_EXPL["C04"],
